@@ -129,7 +129,27 @@ def known(argv):
             print(f"  {f['id']}: replay failed to run: {type(e).__name__}: {e}")
             bad += 1
             continue
-        print(f"  {f['id']}: {'reproduced' if hit else 'NOT reproduced'} (digest {'same' if same else 'differs'})")
+        note = ""
+        if not hit:
+            # a replay that pre-empts the loop thread "at its k-th traced line" moves when lines are added to the library:
+            # look for the same violation class a few lines further on before calling the finding gone
+            rec = json.load(open(path))
+            sc = rec.get("scenario", {})
+            cl = sc.get("closer") if isinstance(sc.get("closer"), dict) else None
+            if cl and cl.get("kind") == "line":
+                mod = runner.load_prop(pid)
+                want = rec["violation"]
+                k0 = int(cl["k"])
+                for dk in sorted(range(-60, 61), key=abs):
+                    sc2 = dict(sc, closer=dict(cl, k=k0 + dk))
+                    try:
+                        r2 = mod.run(sc2, choices=[])
+                    except Exception:  # noqa
+                        continue
+                    if any(v["clause"] == want["clause"] and v["ctx"] == want["ctx"] for v in r2.violations):
+                        hit, note = True, f" at line k={k0 + dk} (recorded k={k0}: the library's lines moved; refresh with VERIF_WRITE_KF_REPLAYS=1)"
+                        break
+        print(f"  {f['id']}: {'reproduced' if hit else 'NOT reproduced'}{note} (digest {'same' if same else 'differs'})")
         if not hit:
             bad += 1
     print(f"known findings: {len(kf.get('findings', [])) - bad}/{len(kf.get('findings', []))} reproduce from their committed replay files")
